@@ -557,7 +557,16 @@ impl Model {
                 if success {
                     let stored_ok = matches!(after_e, Some(d) if d.value == *value && d.flags == *flags && d.expiry() == t_inf(now, *ttl));
                     if !stored_ok {
-                        let clause = if *kind == StoreKind::Set { "stored-exactly" } else { "conditional-store-effect" };
+                        // an item stored while a delayed flush is pending must not inherit its deadline
+                        let flush_pending = matches!(present, Some(it) if it.upper < it.own_upper);
+                        let value_ok = matches!(after_e, Some(d) if d.value == *value && d.flags == *flags);
+                        let clause = if flush_pending && value_ok {
+                            "store-after-flush-affected"
+                        } else if *kind == StoreKind::Set {
+                            "stored-exactly"
+                        } else {
+                            "conditional-store-effect"
+                        };
                         ev.viol.push(v(
                             clause,
                             format!("{} was acknowledged but the store holds {:?} (sent value {} flags {:#x} ttl {})", name, after_e, wire::show(value), flags, ttl),
